@@ -47,7 +47,7 @@ GQ == IF Thorough THEN { q \in QLat(2) : Primitive(q) } ELSE QLat(1) \cup { <<2,
 GW == { <<1,0,0>>, <<0,1,0>>, <<0,0,1>>, <<1,-2,2>>, <<-3,1,1>> }
 
 InitJ == /\ dummy = 0
-         /\ \/ \E h \in HAll : nOf(h) # 0 /\ tv = [op |-> "seedj", h |-> h]
+         /\ \/ \E h \in HAll \ HNearPole : nOf(h) # 0 /\ tv = [op |-> "seedj", h |-> h]      \* (near-pole quaternions: 32-bit)
             \/ \E q \in GQ : tv = [op |-> "seedg", q |-> q]
             \/ tv = [op |-> "seedz"]
 NextJ == UNCHANGED dummy /\
